@@ -251,6 +251,8 @@ def explore(item):
         members = [(BY_LABEL[l], "object", t) for l, t in zip(labels, mtfs)]
         n = 4
         for hcfg in [(None, False, None, None), ("T2", False, None, None), (None, False, None, "HA"), ("T2", True, None, None)]:
+            if hcfg[0] and any(t and A.tf_seconds(t) % A.tf_seconds(hcfg[0]) for t in mtfs):
+                continue  # assumption: member timeframes are multiples of the Hexital-level timeframe (a T3 member cannot be rebuilt from T2 buckets)
             for word in list(A.words("UD", n))[:: (2 if len(labels) == 2 else 4)]:
                 raw = raw_stream(word, "+", A.regular_gaps("reg", n, 120), "T2")
                 for sched in ("ctor", (1,) * n, (2, 2), ("pre", 2)):
@@ -286,9 +288,9 @@ def main(prop, tier):
                 if cfg in PATTERNS and (form != "object" and mtf == "T4"):
                     continue
                 items.append((tier, "single", (cfg["label"], mtf, form)))
-    tfc2 = list(itertools.product(MEMBER_TFS, repeat=2)) + [("T2", "t2"), ("t2", "T2"), ("t4", "T2"), ("S120", "S120"), ("S240", "T4")]  # spelling variants share a manager
+    tfc2 = list(itertools.product(MEMBER_TFS, repeat=2)) + [("T2", "t2"), ("t2", "T2"), ("t4", "T2"), ("S120", "S120"), ("S240", "T4"), ("T2", "T3"), ("T3", "T2")]  # spelling variants share a manager
     for a, b in itertools.permutations(POOL, 2):
-        for mt in tfc2 if tier != "quick" else tfc2[::2] + tfc2[-5:]:
+        for mt in tfc2 if tier != "quick" else tfc2[::2] + tfc2[-7:]:
             items.append((tier, "set", ((a, b), mt)))
     tfc3 = [(None, None, None), (None, "T2", "T4"), ("T2", "T2", None), ("T4", None, "T2"), ("T2", None, "t2")]
     trip = list(itertools.permutations(POOL, 3))
